@@ -1,11 +1,182 @@
-/- Model-driver operations of cluster F (see Driver/Main.lean): generated (Gen) and hand-written (Model) code models. -/
+/- Model-driver operations of cluster F (C16, C20): the hand-written effect programs and the store model, executed. -/
 import PdbVerif.Driver.Json
+import PdbVerif.Driver.SpecF
+import PdbVerif.Model.Effects
+import PdbVerif.Model.Store
 
 namespace Driver.ModelF
-open Lean Driver
+open Lean Driver Driver.SpecF
+
+/-! ## C16 -/
+
+open Spec.C16 Model.C16 in
+def routineOf (name : String) (check : Bool) : Option Routine :=
+  match name with
+  | "effects_lrmsd_fast" => some (.lrmsdFast check)
+  | "effects_irmsd_fast" => some (.irmsdFast check)
+  | "effects_lrmsd_sql" => some .lrmsdSql
+  | "effects_irmsd_sql" => some .irmsdSql
+  | "effects_fnat_fast" => some .fnatFast
+  | "effects_fnat_sql" => some .fnatSql
+  | "effects_clashes" => some .clashes
+  | "effects_contacts" => some .contacts
+  | "effects_superpose" => some .superpose
+  | "effects_align" => some .align
+  | "effects_pairs_ref" => some .pairsRef
+  | "effects_lzone" => some .lzone
+  | "effects_izone" => some .izone
+  | _ => none
+
+/-- the uninterpreted pure work, instantiated by something: a zone is the lines it is written as; `check` fails on
+    request; a zone file holding the line "garbage" does not parse -/
+def dummyWork (failstage : Int) : Model.C16.Work String (List String) String where
+  compute := fun _ rc => rc
+  render := id
+  parse := fun c => if c == ["garbage"] then .error .valueError else .ok c
+  check := fun _ stage _ => if (stage : Int) == failstage then .error .valueError else .ok ()
+  score := fun _ _ _ => .ok "value"
+  exportLines := fun _ _ _ => ["ATOM"]
+
+def optBool (j : Json) (k : String) (dflt : Bool) : Bool :=
+  match j.getObjVal? k with
+  | .ok (.bool b) => b
+  | _ => dflt
+
+def optStr (j : Json) (k : String) (dflt : String) : String :=
+  match j.getObjVal? k with
+  | .ok (.str s) => s
+  | _ => dflt
+
+def strList (j : Json) (k : String) : List String :=
+  match j.getObjVal? k with
+  | .ok (.arr a) => a.toList.filterMap (fun x => match x with | .str s => some s | _ => none)
+  | _ => []
+
+open Spec.C16 Model.C16 in
+def isVisible : Act String → Bool
+  | .append _ => false            -- a `write` on an open file raises no audit event
+  | _ => true
+
+open Spec.C16 Model.C16 in
+def effectsOp (r : Routine) (j : Json) : Except String Json := do
+  let zone := optStr j "zone" "none"
+  let exports := match j.getObjVal? "exports" with | .ok v => (v.getNat?.toOption.getD 0) | _ => 0
+  let missing := strList j "missing"
+  let W := dummyWork (match j.getObjVal? "failstage" with | .ok v => (v.getInt?.toOption.getD (-1)) | _ => -1)
+  let a : Args String := {
+    decoy := "decoy", ref := "ref", tmp := "tmp",
+    zone := if zone == "none" then none else some "zone",
+    out1 := if exports ≥ 1 then some "out1" else none,
+    out2 := if exports ≥ 2 then some "out2" else none }
+  let fs : FS String String := fun p =>
+    if p == "decoy" && !missing.contains "decoy" then some ["d"]
+    else if p == "ref" && !missing.contains "ref" then some ["r"]
+    else if p == "zone" && zone == "present" then some ["z"]
+    else if p == "zone" && zone == "garbage" then some ["garbage"]
+    else none
+  let t : Prog String String String := prog W r a
+  let tr := (t.trace fs).filter isVisible
+  let res := t.exec fs
+  let outcome : Json := match res.2 with
+    | .ok _ => .str "ok"
+    | .error e => .str e.tag
+  let final := ["decoy", "ref", "zone", "tmp", "out1", "out2"].filter (fun p => (res.1 p).isSome)
+  pure (Json.mkObj [("trace", .arr (tr.map actJ).toArray), ("outcome", outcome),
+    ("final", .arr (final.map Json.str).toArray)])
+
+/-! ## C16: a schedule of several tasks (the model's prediction for an observed interleaving) -/
+
+open Spec.C16 Model.C16 in
+/-- run task `k` up to and including its next *visible* action (invisible `append`s on its own files go with the
+    visible action before them) -/
+def stepVisible (s : Sys String String String) (k : Nat) : Sys String String String :=
+  let s1 := s.step k
+  -- absorb following invisible actions of the same task (at most a few)
+  let rec absorb (fuel : Nat) (s : Sys String String String) : Sys String String String :=
+    match fuel with
+    | 0 => s
+    | fuel + 1 =>
+      match s.tasks[k]? with
+      | some t => (match t.head with
+        | some (.append _) => absorb fuel (s.step k)
+        | _ => s)
+      | none => s
+  absorb 8 s1
+
+open Spec.C16 Model.C16 in
+def schedOp (j : Json) : Except String Json := do
+  let tasks ← jArr j "tasks"
+  let zone := optStr j "zone" "absent"
+  let W := dummyWork (-1)
+  let mut progs : List (Prog String String String) := []
+  let mut i := 0
+  for tj in tasks do
+    let name ← jStr tj "routine"
+    let check := optBool tj "check" true
+    let usez := optBool tj "zone" true
+    match routineOf name check with
+    | none => throw s!"unknown routine {name}"
+    | some r =>
+      let a : Args String := { decoy := s!"decoy{i}", ref := "ref", tmp := s!"tmp{i}",
+                               zone := if usez then some "zone" else none }
+      progs := progs ++ [prog W r a]
+    i := i + 1
+  let fs : FS String String := fun p =>
+    if p.startsWith "decoy" then some ["d"] else if p == "ref" then some ["r"]
+    else if p == "zone" && zone == "present" then some ["z"] else none
+  let sched ← jArr j "sched"
+  let mut s : Sys String String String := ⟨fs, progs⟩
+  let mut seen : List (List Json) := progs.map (fun _ => [])
+  for kj in sched do
+    let k := (kj.getNat?.toOption.getD 0)
+    -- record the visible action task k is about to perform
+    match s.tasks[k]? with
+    | some t =>
+      match t.head with
+      | some a => if isVisible a then seen := seen.set k ((seen.getD k []) ++ [actJ a]) else pure ()
+      | none => pure ()
+    | none => pure ()
+    s := stepVisible s k
+  let outs := (List.range progs.length).map (fun i => match s.outcome i with
+    | some (.ok _) => Json.str "ok"
+    | some (.error e) => Json.str e.tag
+    | none => Json.str "running")
+  pure (Json.mkObj [("outcomes", .arr outs.toArray), ("traces", .arr (seen.map (fun l => Json.arr l.toArray)).toArray),
+    ("zone_final", .bool (s.fs "zone").isSome),
+    ("temps_left", .arr (((List.range progs.length).filter (fun i => (s.fs s!"tmp{i}").isSome)).map (fun i => intJ (Int.ofNat i))).toArray)])
+
+/-! ## C20 -/
+
+open Spec.C20 Model.C20 in
+def factJ : FAct String → Option Json
+  | .isFile p => some (.arr #[.str "isFile", .str p])
+  | .remove p => some (.arr #[.str "remove", .str p])
+  | .connect p => some (.arr #[.str "connect", .str p])
+  | .shell _ => some (.arr #[.str "shell"])
+  | _ => none                     -- SQLite-internal actions raise no audit event
+
+open Spec.C20 Model.C20 in
+def storeOp (j : Json) : Except String Json := do
+  let a ← jArr j "ops"
+  let k ← jInt j "k"
+  let ops ← opsOfJson (if k < 0 then a else a.extract 0 k.toNat)
+  let r0 ← jStr j "r0"
+  let w : World String DRow := fun q =>
+    if q == "victim" then some .other
+    else if q == "db" then (if r0 == "olddb" then some (.db (some [⟨999, 0, []⟩])) else if r0 == "garbage" then some .other else none)
+    else none
+  let journal : String → String := fun p => p ++ "-journal"
+  let st := run journal "db" w ops
+  let rd := readBack (crash st) "db"
+  pure (Json.mkObj [("read", readJ rd), ("trace", .arr (st.trace.filterMap factJ).toArray),
+    ("victim_ok", .bool (match st.world "victim" with | some .other => true | _ => false)),
+    ("journal_left", .bool (st.world "db-journal").isSome)])
 
 def op (name : String) (j : Json) : Except String (Option Json) := do
-  match name with
-  | _ => pure none
+  if name == "sched_run" then return some (← schedOp j)
+  if name == "store_scenario" then return some (← storeOp j)
+  match routineOf name (optBool j "check" true) with
+  | some r => return some (← effectsOp r j)
+  | none => pure none
 
 end Driver.ModelF
